@@ -129,3 +129,79 @@ def tierp_tasks(tier):
             out.append((f"tierP[{kind}_constraint,{'batched' if batched else 'unbatched'}]", (lambda k, b: lambda T: t_constraint(T, k, b))(kind, batched)))
         out.append((f"tierP[{kind}_constraint,none]", (lambda k: lambda T: t_no_constraint(T, k))(kind)))
     return out
+
+
+# ---------------------------------------------------------------- _TensorViewer.stitch / split for any partition
+def t_tensorviewer(T, batched):
+    """class invariant of _TensorViewer: the concatenated partition indices c(t), t < n, are a permutation of 0..n-1 and
+    sorted_indices is its inverse (what argsort computes).  For K = 2 parts of symbolic sizes n0, n1:
+       stitch([d0, d1])[.., c(t)] == (d0 ++ d1)[.., t]      (every datum lands at the position its index names)
+       split(x)[k][.., j]        == x[.., index_k(j)]
+    for data with or without leading (sample / batch) axes."""
+    key = "tensor/common.py::_TensorViewer.stitch"
+    eng = T.engine({"inline": ["tensor/common.py::"]})
+    f = T.under_contract(eng, key)
+    g = T.under_contract(eng, "tensor/common.py::_TensorViewer.split")
+    cls = eng.module("tensor/common.py").get("_TensorViewer")
+    Cc, Sg = z3.Function("concat_index", I, I), z3.Function("sorted_index", I, I)
+    box = {}
+
+    def thunk():
+        n0, n1 = z3.Ints("n0 n1")
+        eng.assume(n0 >= 1)
+        eng.assume(n1 >= 1)
+        n = n0 + n1
+        t_ = z3.Int("qt")
+        eng.assume(z3.ForAll([t_], z3.Implies(z3.And(t_ >= 0, t_ < n), z3.And(Cc(t_) >= 0, Cc(t_) < n, Sg(Cc(t_)) == t_))))
+        eng.assume(z3.ForAll([t_], z3.Implies(z3.And(t_ >= 0, t_ < n), z3.And(Sg(t_) >= 0, Sg(t_) < n, Cc(Sg(t_)) == t_))))
+        o = Rec(cls)
+        p0 = PT((n0,), lambda i: Cc(i[0]), "int")
+        p1 = PT((n1,), lambda i: Cc(n0 + i[0]), "int")
+        o.attrs.update({"partition_indices": [p0, p1], "sorted_indices": PT((n,), lambda i: Sg(i[0]), "int"), "batch_size": None, "names": None})
+        lead = (z3.Int("L"),) if batched else ()
+        if batched:
+            eng.assume(lead[0] >= 1)
+        D0 = z3.Function("data0", *([I] * (len(lead) + 1)), R)
+        D1 = z3.Function("data1", *([I] * (len(lead) + 1)), R)
+        X = z3.Function("xdata", *([I] * (len(lead) + 1)), R)
+        d0 = PT(lead + (n0,), lambda i: D0(*i), "real")
+        d1 = PT(lead + (n1,), lambda i: D1(*i), "real")
+        x = PT(lead + (n,), lambda i: X(*i), "real")
+        box.update(n0=n0, n1=n1, n=n, lead=lead, D0=D0, D1=D1, X=X)
+        return eng.call_function(f, [o, [d0, d1]], {}, force_inline=True), eng.call_function(g, [o, x], {}, force_inline=True)
+    results = eng.explore(thunk)
+    T.absorb(eng, results)
+    tag = "leading-axis" if batched else "flat"
+    for k, r in enumerate(results):
+        sfx = f"@{tag},path{k}"
+        if r.kind != "return":
+            T.fail(f"{key}#no-raise{sfx}", f"raises {r.exc_name} {getattr(r.value, 'eargs', '')}", kind="raises")
+            continue
+        st, sp = r.value
+        n0, n1, n, lead, D0, D1, X = (box[v] for v in ("n0", "n1", "n", "lead", "D0", "D1", "X"))
+        hy = r.path.hyps()
+        ok = isinstance(st, PT) and len(st.shape) == len(lead) + 1 and isinstance(sp, list) and len(sp) == 2 and all(isinstance(p, PT) for p in sp)
+        (T.ok if ok else T.fail)(f"{key}#post.shapes{sfx}", *([] if ok else ["unexpected result structure"]), kind="structure")
+        if not ok:
+            continue
+        t = z3.Int("t_gen")
+        li = tuple(z3.Int(f"l{q}") for q in range(len(lead)))
+        lb = [z3.And(a >= 0, a < d) for a, d in zip(li, lead)]
+        src = z3.If(t < n0, D0(*li, t), D1(*li, t - n0))
+        T.ob(eng, f"{key}#post.every-datum-lands-at-the-position-its-index-names{sfx}", hy + lb + [t >= 0, t < n], eng.to_real(st.fn(li + (Cc(t),))) == src)
+        T.ob(eng, f"{key}#post.length-is-the-total{sfx}", hy, st.shape[-1] == n if z3.is_expr(st.shape[-1]) else z3.BoolVal(False))
+        j = z3.Int("j_gen")
+        T.ob(eng, "tensor/common.py::_TensorViewer.split#post.part-k-reads-its-own-indices" + sfx, hy + lb + [j >= 0],
+             z3.And(z3.Implies(j < n0, eng.to_real(sp[0].fn(li + (j,))) == X(*li, Cc(j))), z3.Implies(j < n1, eng.to_real(sp[1].fn(li + (j,))) == X(*li, Cc(n0 + j)))))
+    if not results:
+        T.fail(f"{key}#no-raise@{tag}", "no path", kind="raises")
+
+
+_tierp_base = tierp_tasks
+
+
+def tierp_tasks(tier):
+    out = _tierp_base(tier)
+    for batched in (False, True):
+        out.append((f"tierP[_TensorViewer,{'leading-axis' if batched else 'flat'}]", (lambda b: lambda T: t_tensorviewer(T, b))(batched)))
+    return out
